@@ -10,6 +10,12 @@ Local Open Scope N_scope.
     [orc]: what CPython answers for the number-like tokens of the printed text whose canonical
     form differs from the token (float/Decimal/complex constructors followed by printing);
     every other token is its own canonical form.  [badre]: patterns re.compile rejects. *)
+(** big integers are written in the case files as base-2^60 digits, most significant first
+    (Coq's parser is quadratic in the length of a numeral) *)
+Definition zbig (neg : bool) (chunks : list N) : Z :=
+  let n := fold_left (fun acc c => N.lor (N.shiftl acc 60) c) chunks 0 in
+  if neg then (- Z.of_N n)%Z else Z.of_N n.
+
 Inductive case := Case (via : N) (pc : pctl) (v : value) (orc : list (str * str)) (badre : list str).
 
 Inductive out :=
